@@ -951,6 +951,12 @@ example : roundHalfEven (1 * 10 ^ 6) 2000000 = 0 ∧ roundHalfEven (3 * 10 ^ 6) 
 example : (splitext "dir.d/.hidden".toList).2 = [] ∧ (splitext "a/b.c.txt".toList).2 = ".txt".toList := by
   constructor <;> decide
 
+-- the exact value behind a bit pattern: 0.5 = 2^52 / 2^53, -2.0 = -2^52 / 2^51, 2^53 = (2^52 · 2) / 1
+example : valOfBits 4602678819172646912 = .fin false (2 ^ 52) (2 ^ 53) ∧
+    valOfBits 13835058055282163712 = .fin true (2 ^ 52) (2 ^ 51) ∧
+    valOfBits 4845873199050653696 = .fin false (2 ^ 52 * 2 ^ 1) 1 := by
+  refine ⟨?_, ?_, ?_⟩ <;> decide
+
 example : closePolyline true [(1, 2), (3, 4)] = some [(2, 1), (4, 3), (2, 1)] := rfl
 
 example : (⟨1996, 2, 29, 23⟩ : Stamp).valid = true := by decide
